@@ -72,4 +72,6 @@ def main(tier, seed):
                        'NoRealHalt in every state of: time-travel templates and enumerated core, random time-travel programs, '
                        'random sequential programs with faults, shipped examples; checked and (where the source run is fault '
                        'free) unchecked builds', t0, kinds={'real_halt'}, postfilter=kinds_filter, allow_exhausted=True,
+                       monitors=False,     # a monitor alarm ends a run: with the ABI monitors on, a run could stop before it reaches its halt
+
                        extra_cov={'machine_model_check': {'spec': 'SphinxOracle.tla OracleAgree', 'programs': nprog, 'states': mc.distinct}})
